@@ -6,3 +6,4 @@ pub mod hexs;
 pub mod rng;
 pub mod seams;
 pub mod suite;
+pub mod unitksf;
